@@ -597,10 +597,15 @@ func (f *lambdaCallable) wrapVariadicArgs(argv []reflect.Value) []reflect.Value 
 	}
 
 	n := len(argv) - paramCount + 1
-	vars := reflect.MakeSlice(typeInterfaceSlice, n, n)
+	vars := reflect.MakeSlice(typeInterfaceSlice, 0, n)
 
 	for i := 0; i < n; i++ {
-		vars.Index(i).Set(argv[paramCount-1+i])
+		// Undefined arguments cannot be stored in a slice
+		// (and JSONata arrays do not contain undefined
+		// values). Skip them.
+		if arg := argv[paramCount-1+i]; arg.IsValid() {
+			vars = reflect.Append(vars, arg)
+		}
 	}
 
 	return append(argv[:paramCount-1], vars)
